@@ -23,6 +23,7 @@
 #include <sys/stat.h>
 
 #include <cmath>
+#include <functional>
 
 using namespace c06;
 using benum::Args;
@@ -133,11 +134,26 @@ static const Result& baseline(Path p, const FileRef& f) {
     return it->second;
 }
 
+static const char* const O5M_SHORT_TAIL = "eof-within-9-bytes-after-a-dataset-type-byte";
+
+static bool o5m_short_tail(const FileRef& f) { return g_seeds[f.seed].fmt == "o5m" && structure(f).o5m_short_tail; }
+
 static std::string file_class(const FileRef& f) {
     const Seed& s = g_seeds[f.seed];
     std::string c = f.len < s.data.size() ? "truncated" : s.error_seed ? "error-seed" : "valid";
-    if (s.fmt == "o5m" && structure(f).o5m_short_tail) c += ",eof-within-9-bytes-after-a-dataset-type-byte";
+    if (o5m_short_tail(f)) c += std::string(",") + O5M_SHORT_TAIL;
     return c;
+}
+
+// Class key of a difference. Normally <fmt>/<what differs, with the exception texts>/<input class>/cut:<where the
+// smallest failing cut lies>. o5m inputs in which the end of the file comes less than 10 bytes after some data
+// set's type byte are one class of their own whatever the cut position and the wording of the error: there the
+// parser's refill (ensure_bytes_available(max_varint_length)) runs into the end of the input, which has nothing to
+// do with where the cut is - any cut only changes how the buffer is aligned at that moment.
+static std::string class_key(const FileRef& f, const Result& base, const Result& r, const std::string& where) {
+    const std::string& fmt = g_seeds[f.seed].fmt;
+    if (o5m_short_tail(f)) return fmt + "/" + diff_kind(base, r, false) + "/" + O5M_SHORT_TAIL;
+    return fmt + "/" + diff_kind(base, r) + "/" + file_class(f) + "/cut:" + where;
 }
 
 static std::string spec_of(Path p, const FileRef& f, const std::string& seg) {
@@ -162,7 +178,7 @@ static void report_difference(Path p, const FileRef& f, const Cuts& cuts, const 
     }
     std::string where = culprit.size() == 1 ? st.name(culprit[0]) : culprit.size() == 2 ? std::string(st.name(culprit[0])) + "+" + st.name(culprit[1]) : "three-or-more-cuts-needed";
     const Seed& s = g_seeds[f.seed];
-    std::string key = s.fmt + "/" + diff_kind(base, cr) + "/" + file_class(f) + "/cut:" + where;
+    std::string key = class_key(f, base, cr, where);
     std::string detail = std::string(PATH_NAME[p]) + " path, input " + s.name + (f.len < s.data.size() ? " truncated to " + std::to_string(f.len) + " of " : " (") + std::to_string(s.data.size()) + " bytes" + (f.len < s.data.size() ? "" : ")") +
         ", cuts at [" + cuts_text(cuts) + "]" + (culprit.size() < cuts.size() ? ", smallest failing subset [" + cuts_text(culprit) + "]" : "") +
         ": in one piece " + base.brief() + " but in pieces " + cr.brief();
@@ -187,7 +203,8 @@ static void evaluate(Path p, const FileRef& f, const Cuts& cuts, const std::stri
 // ------------------------------------------------------------------------------------------------
 // jobs: (path, set of inputs, family) with a rank <-> case bijection
 struct Job {
-    Path path; Family fam; std::string scope; std::vector<FileRef> files; bool pairs_enabled;
+    Path path; Family fam; std::string scope; std::vector<FileRef> files;
+    std::vector<bool> pairs_too;    // per input: the 'pairs' family of the same path runs on it in this tier (2-cut segmentations are left to it)
     std::vector<uint64_t> start;    // prefix sums of per-file case counts
     uint64_t total = 0;
     static uint64_t count(Family fam, uint32_t n) {
@@ -240,14 +257,14 @@ static void run_job(const Args& a, Job& job) {
         size_t fi = static_cast<size_t>(std::upper_bound(job.start.begin(), job.start.end(), rank) - job.start.begin()) - 1;
         const FileRef& f = job.files[fi];
         Cuts cuts; std::string seg;
-        if (!make_case(job.fam, f.len, rank - job.start[fi], job.pairs_enabled, cuts, seg)) { ++C["segmentations_run_in_another_family"]; return; }
+        if (!make_case(job.fam, f.len, rank - job.start[fi], job.pairs_too[fi], cuts, seg)) { ++C["segmentations_run_in_another_family"]; return; }
         evaluate(job.path, f, cuts, seg);
     };
     auto on_death = [&](uint64_t rank, const std::string& what, const std::string& err) {
         size_t fi = static_cast<size_t>(std::upper_bound(job.start.begin(), job.start.end(), rank) - job.start.begin()) - 1;
         const FileRef& f = job.files[fi];
         Cuts cuts; std::string seg;
-        make_case(job.fam, f.len, rank - job.start[fi], job.pairs_enabled, cuts, seg);
+        make_case(job.fam, f.len, rank - job.start[fi], job.pairs_too[fi], cuts, seg);
         ++C["evaluations"];
         V.report(g_seeds[f.seed].fmt + "/crash-while-reading-in-pieces/" + benum::death_class(what, err) + "/" + file_class(f),
                  std::string(PATH_NAME[job.path]) + " path, input " + g_seeds[f.seed].name + " len " + std::to_string(f.len) + ", cuts [" + cuts_text(cuts).substr(0, 200) + "]: " + what + " " + benum::clean(err.substr(0, 700)),
@@ -335,7 +352,6 @@ static void replay(const Args& a, const std::string& spec) {
     Path path = f[0] == "reader" ? READER : DIRECT;
     Cuts cuts = parse_seg(f[3], fr.len);
     // same isolation as the enumeration, so that a crashing case is reported under the same key
-    Job job; job.path = path; job.fam = SINGLE; job.files = {fr};
     auto body = [&](uint64_t) { evaluate(path, fr, cuts, f[3]); };
     auto on_death = [&](uint64_t, const std::string& what, const std::string& err) {
         V.report(g_seeds[fr.seed].fmt + "/crash-while-reading-in-pieces/" + benum::death_class(what, err) + "/" + file_class(fr), what + " " + benum::clean(err.substr(0, 700)), spec);
@@ -351,7 +367,7 @@ int main(int argc, char** argv) {
         else if (a.rest[i] == "--part") part = a.rest[i + 1];
         else if (a.rest[i] == "--fmt") only_fmt = a.rest[i + 1];
     }
-    if (datadir.empty()) { const char* e = getenv("C06_DATA"); datadir = e ? e : "/verif/build/C06-data"; }
+    if (datadir.empty()) datadir = C06_DATA_DIR;      // written by gen.py; check.py passes the path at compile time
     g_seeds = load_seeds(datadir);
     if (g_seeds.empty()) { fprintf(stderr, "no seeds in %s\n", datadir.c_str()); return 2; }
     osmium::io::CompressionFactory::instance().register_compression(osmium::io::file_compression::gzip,
@@ -361,56 +377,66 @@ int main(int argc, char** argv) {
     if (a.replay) { a.shard = 0; a.nshards = 1; replay(a, a.replay_spec); C.emit(); return 0; }
 
     // input sets
-    std::vector<FileRef> seeds, truncs, small;
-    std::map<std::string, int> small_per_fmt;
+    std::vector<FileRef> seeds, prefixes;
     for (size_t i = 0; i < g_seeds.size(); ++i) {
         const Seed& s = g_seeds[i];
         if (!only_fmt.empty() && s.fmt != only_fmt) continue;
-        FileRef f{static_cast<int>(i), static_cast<uint32_t>(s.data.size())};
-        seeds.push_back(f);
-        if (s.trunc) for (uint32_t l = 2; l < s.data.size(); ++l) truncs.push_back(FileRef{static_cast<int>(i), l});
-        // "small": every input below 100 bytes and the smallest bigger seed of each format
-        if (s.data.size() < 100) small.push_back(f);
+        seeds.push_back(FileRef{static_cast<int>(i), static_cast<uint32_t>(s.data.size())});
+        if (s.trunc) for (uint32_t l = 2; l < s.data.size(); ++l) prefixes.push_back(FileRef{static_cast<int>(i), l});
     }
+    // "small" seeds: everything below 100 bytes and the smallest other valid seed of each format
+    std::set<int> small;
+    for (auto& f : seeds) if (f.len < 100) small.insert(f.seed);
     for (const char* fmt : {"opl", "xml", "o5m", "pbf"}) {
         int best = -1;
         for (auto& f : seeds) if (g_seeds[f.seed].fmt == fmt && f.len >= 100 && !g_seeds[f.seed].error_seed && (best < 0 || f.len < g_seeds[best].data.size())) best = f.seed;
-        if (best >= 0) small.push_back(FileRef{best, static_cast<uint32_t>(g_seeds[best].data.size())});
+        if (best >= 0) small.insert(best);
     }
-    auto is_small = [&](const FileRef& f) { for (auto& x : small) if (x.seed == f.seed && x.len == f.len) return true; return false; };
-    std::vector<FileRef> seeds_not_small, seeds_mid;
-    for (auto& f : seeds) if (!is_small(f)) { seeds_not_small.push_back(f); if (f.len <= 800) seeds_mid.push_back(f); }
-    std::vector<FileRef> truncs_sparse;       // every 8th prefix length
-    for (auto& f : truncs) if (f.len % 8 == 3) truncs_sparse.push_back(f);
+    auto is_seed = [&](const FileRef& f) { return f.len == g_seeds[f.seed].data.size(); };
+    auto sparse = [&](const FileRef& f) { return f.len % 8 == 3; };                       // every 8th prefix length
 
     if (part == "unsplit") {
-        std::vector<FileRef> all = seeds; all.insert(all.end(), truncs.begin(), truncs.end());
+        std::vector<FileRef> all = seeds; all.insert(all.end(), prefixes.begin(), prefixes.end());
         part_unsplit(a, all);
     } else if (part == "split") {
         const bool T = a.thorough;
-        std::vector<Job> jobs;
-        auto add = [&](Path p, Family fam, const char* scope, const std::vector<FileRef>& files, bool pairs_enabled) {
-            Job j; j.path = p; j.fam = fam; j.scope = scope; j.files = files; j.pairs_enabled = pairs_enabled; jobs.push_back(j);
+        // where the 'pairs' family runs
+        auto pairs_run = [&](Path p, const FileRef& f) {
+            if (is_seed(f)) return small.count(f.seed) > 0 ? (p == DIRECT || T) : (p == DIRECT && T);
+            return p == DIRECT && T && (g_seeds[f.seed].data.size() <= 330 || sparse(f));
         };
-        // smallest first. pairs_enabled tells the other families of the same (path, inputs) that 2-cut segmentations are run under 'pairs'
+        using Pred = std::function<bool(const FileRef&)>;
+        std::vector<Job> jobs;
+        auto add = [&](Path p, Family fam, const char* scope, const std::vector<FileRef>& from, const Pred& pred) {
+            Job j; j.path = p; j.fam = fam; j.scope = scope;
+            for (auto& f : from) if (pred(f) && (fam != PAIRS || pairs_run(p, f))) { j.files.push_back(f); j.pairs_too.push_back(pairs_run(p, f)); }
+            if (!j.files.empty()) jobs.push_back(j);
+        };
+        Pred any = [](const FileRef&) { return true; };
+        Pred is_small = [&](const FileRef& f) { return small.count(f.seed) > 0; };
+        Pred not_small = [&](const FileRef& f) { return small.count(f.seed) == 0; };
+        Pred every8th = sparse;
+        // smallest first; the direct path is the work horse, a full Reader costs several thread hand-overs per run
         for (Family fam : {SINGLE, UNIFORM, AROUND}) {
-            add(DIRECT, fam, "small seeds", small, true);
-            add(DIRECT, fam, "other seeds", seeds_not_small, T);
-            add(DIRECT, fam, "every prefix of the 't' seeds", truncs, T);
+            add(DIRECT, fam, "small seeds", seeds, is_small);
+            add(DIRECT, fam, "other seeds", seeds, not_small);
         }
-        for (Family fam : {SINGLE, UNIFORM, AROUND}) {
-            add(READER, fam, "small seeds", small, true);
-            add(READER, fam, "other seeds", seeds_not_small, false);
-            if (T || fam == UNIFORM) add(READER, fam, "every prefix of the 't' seeds", truncs, false);
-        }
-        add(DIRECT, PAIRS, "small seeds", small, true);
-        add(READER, PAIRS, "small seeds", small, true);
+        add(READER, SINGLE, "small seeds", seeds, is_small);
+        add(READER, UNIFORM, "all seeds", seeds, any);
+        add(READER, AROUND, "small seeds", seeds, is_small);
+        add(READER, SINGLE, "other seeds", seeds, not_small);
+        for (Family fam : {SINGLE, UNIFORM, AROUND}) add(DIRECT, fam, "every prefix of the 't' seeds", prefixes, any);
+        add(READER, UNIFORM, T ? "every prefix of the 't' seeds" : "every 8th prefix of the 't' seeds", prefixes, T ? any : every8th);
+        add(DIRECT, PAIRS, "small seeds", seeds, is_small);
         if (T) {
-            add(DIRECT, PAIRS, "other seeds", seeds_not_small, true);
-            add(DIRECT, PAIRS, "every prefix of the 't' seeds", truncs, true);
+            add(READER, AROUND, "other seeds", seeds, not_small);
+            add(READER, SINGLE, "every 8th prefix of the 't' seeds", prefixes, every8th);
+            add(READER, AROUND, "every 8th prefix of the 't' seeds", prefixes, every8th);
+            add(READER, PAIRS, "small seeds", seeds, is_small);
+            add(DIRECT, PAIRS, "other seeds", seeds, not_small);
+            add(DIRECT, PAIRS, "prefixes of the 't' seeds (every one up to 330 bytes seed size, every 8th beyond)", prefixes, any);
         }
         for (auto& j : jobs) run_job(a, j);
-        (void)seeds_mid; (void)truncs_sparse;
     } else { fprintf(stderr, "unknown part\n"); return 2; }
     C.emit();
     return 0;
